@@ -56,6 +56,8 @@ pub struct Cx {
     pub triggers: BTreeSet<String>,
     pub max_ticks_per_kib: u64,
     pub max_peak_bytes: usize,
+    /// library calls after which the run is cut short (only while a violation is minimised)
+    pub eval_cap: u64,
     pub hash_order_class: u64,
 }
 
@@ -76,6 +78,7 @@ impl Cx {
             triggers: BTreeSet::new(),
             max_ticks_per_kib: 0,
             max_peak_bytes: 0,
+            eval_cap: SHRINK_EVAL_CAP.load(std::sync::atomic::Ordering::SeqCst),
             hash_order_class: 0,
         }
     }
@@ -305,6 +308,11 @@ pub struct ShrinkStats {
     pub to_len: usize,
 }
 
+/// While a violation is being minimised, a candidate run that has already made more library calls than the
+/// violating run needed (with a margin) cannot be a smaller reproduction of it: it is cut short. This matters for
+/// scenarios whose runs go on for a long time after the point of the violation (fault enumeration).
+pub static SHRINK_EVAL_CAP: std::sync::atomic::AtomicU64 = std::sync::atomic::AtomicU64::new(u64::MAX);
+
 fn still_fails(scn: &dyn Scenario, tier: Tier, key: &str, cand: &[TNode]) -> Option<(Vec<TNode>, Violation)> {
     let r = exec_run(scn, Tape::from_replay(cand.to_vec()), tier, false);
     match r.violation {
@@ -370,6 +378,9 @@ fn size(nodes: &[TNode]) -> (usize, usize) {
 pub fn shrink(scn: &dyn Scenario, tier: Tier, tape: Vec<TNode>, v: Violation, max_exec: u32, max_secs: f64) -> (Vec<TNode>, Violation, ShrinkStats) {
     let key = v.key();
     let start = Instant::now();
+    // how many library calls does the violating run make?
+    let evals0 = exec_run(scn, Tape::from_replay(tape.clone()), tier, false).evals;
+    SHRINK_EVAL_CAP.store(evals0.saturating_mul(2).saturating_add(8), std::sync::atomic::Ordering::SeqCst);
     let mut best = tape;
     let mut bestv = v;
     let mut execs = 0u32;
@@ -487,6 +498,7 @@ pub fn shrink(scn: &dyn Scenario, tier: Tier, tape: Vec<TNode>, v: Violation, ma
         }
     }
     let to_len = count_values(&best);
+    SHRINK_EVAL_CAP.store(u64::MAX, std::sync::atomic::Ordering::SeqCst);
     (best, bestv, ShrinkStats { executions: execs, from_len, to_len })
 }
 
